@@ -254,7 +254,6 @@ def decode_state(memtype, writes, wck_ck_ratio=None):
         if "MR2" in regs:
             st["cl"] = LP4_RL[dbi].get(g("MR2", "RL"))
             st["cwl"] = LP4_WL[wls].get(g("MR2", "WL"))
-            st["rl_code"], st["wl_code"], st["nwr_code"] = g("MR2", "RL"), g("MR2", "WL"), None
     elif memtype == "LPDDR5":
         ckr = g("MR18", "CKR")
         st["wck_ck_ratio"] = ckr
